@@ -40,7 +40,7 @@ func (a ammW) SwapOutAmtGivenIn(ctx sdk.Context, poolId uint64, o ammtypes.Oracl
 	z := sdkmath.LegacyZeroDec()
 	*a.n++
 	tag := string(rune('0' + *a.n))
-	if vrf.Bool("estFails" + tag) {
+	if !estNoFail && vrf.Bool("estFails"+tag) {
 		return sdk.Coin{}, z, z, z, z, ammtypes.ErrAmountTooLow
 	}
 	out := vrf.Int("estOut" + tag)
@@ -52,7 +52,7 @@ func (a ammW) SwapInAmtGivenOut(ctx sdk.Context, poolId uint64, o ammtypes.Oracl
 	z := sdkmath.LegacyZeroDec()
 	*a.n++
 	tag := string(rune('0' + *a.n))
-	if vrf.Bool("estFails" + tag) {
+	if !estNoFail && vrf.Bool("estFails"+tag) {
 		return sdk.Coin{}, z, z, z, z, ammtypes.ErrAmountTooLow
 	}
 	in := vrf.Int("estIn" + tag)
@@ -60,15 +60,20 @@ func (a ammW) SwapInAmtGivenOut(ctx sdk.Context, poolId uint64, o ammtypes.Oracl
 	return sdk.Coin{Denom: inDenom, Amount: in}, z, z, z, z, nil
 }
 
+// estNoFail: in steps whose caller fails the whole transaction on an estimate error (rolled back by baseapp)
+// the failing branch of the estimates is not explored
+var estNoFail bool
+
 type side struct{ liab, cust, coll sdkmath.Int }
 
 type state struct {
 	env    *wire.Env
-	bal    map[string]sdkmath.Int      // amm reserves
-	long   map[string]side            // pool aggregates = sums over the other (not modelled) positions
+	bal    map[string]sdkmath.Int // amm reserves
+	long   map[string]side        // pool aggregates = sums over the other (not modelled) positions
 	short  map[string]side
 	wallet map[string]sdkmath.Int
 	count  uint64
+	noC11  bool // sub-steps that the accounted-pool hook has not followed yet
 }
 
 func nonneg(name string) sdkmath.Int {
@@ -174,6 +179,9 @@ func (s *state) check(label string) {
 		vrf.Assert(env.W.BalOf(poolAddr, d).Equal(book), "C01 "+label+": amm bank == book ("+d+")")
 		vrf.Assert(book.GTE(wantL.cust.Add(wantS.cust)), "C09 "+label+": the liquidity pool holds at least the total custody ("+d+")")
 		// C11
+		if s.noC11 {
+			continue
+		}
 		non := wantL.liab.Add(wantS.liab).Sub(wantL.cust).Sub(wantS.cust)
 		vrf.Assert(acc.TotalTokens[i].Amount.Equal(book.Add(non)), "C11 "+label+": accounted balance == reserve + liabilities - custody ("+d+")")
 		vrf.Assert(acc.NonAmmPoolTokens[i].Amount.Equal(non), "C11 "+label+": non-pool part == liabilities - custody ("+d+")")
@@ -220,3 +228,139 @@ func H_Open_Long_AtomCollateral() { open(perptypes.Position_LONG, atom) }
 //vrf:bound 1 new SHORT position (uusdc collateral)
 //vrf:max-paths 3000
 func H_Open_Short() { open(perptypes.Position_SHORT, usdc) }
+
+// ---- steps on an existing position: funding / interest settlement, close ----
+
+// setupPos: setup() plus one stored position of the trader (LONG with uusdc collateral, or SHORT) whose amounts are
+// part of the pool aggregates; interest and funding were last settled 10 blocks / 60 s ago and cumulative
+// rate blocks with symbolic values exist for both ends of the interval
+func setupPos(pos perptypes.Position) (*state, perptypes.MTP) {
+	s := setup()
+	env, ctx := s.env, s.env.Ctx
+	env.Param.SetParams(ctx, ptypes.DefaultParams())
+	cust, liab, coll := vrf.Int("custody"), vrf.Int("liabilities"), vrf.Int("collateralAmt")
+	vrf.Assume(cust.IsPositive())
+	vrf.Assume(liab.IsPositive())
+	vrf.Assume(coll.IsPositive())
+	unpaid := nonneg("unpaidInterest")
+	liabAsset, custAsset := usdc, atom
+	if pos == perptypes.Position_SHORT {
+		liabAsset, custAsset = atom, usdc
+	}
+	tp := vrf.Dec("takeProfitPrice")
+	vrf.Assume(tp.IsPositive())
+	m := perptypes.NewMTP(ctx, trader.String(), usdc, atom, liabAsset, custAsset, pos, tp, 1)
+	m.Id = 1
+	m.Custody, m.Liabilities, m.Collateral, m.BorrowInterestUnpaidLiability = cust, liab, coll, unpaid
+	m.OpenPrice = sdkmath.LegacyOneDec()
+	m.LastInterestCalcBlock, m.LastInterestCalcTime = 90, now-60
+	m.LastFundingCalcBlock, m.LastFundingCalcTime = 90, now-60
+	if err := env.Perp.SetMTP(ctx, m); err != nil {
+		vrf.Fail("SetMTP: " + err.Error())
+	}
+	// fold the position into the pool aggregates, the backing hypothesis, the accounted pool and the counter
+	pp, _ := env.Perp.GetPool(ctx, 1)
+	assets := &pp.PoolAssetsLong
+	if pos == perptypes.Position_SHORT {
+		assets = &pp.PoolAssetsShort
+	}
+	for i := range *assets {
+		a := &(*assets)[i]
+		if a.AssetDenom == custAsset {
+			a.Custody = a.Custody.Add(cust)
+		}
+		if a.AssetDenom == liabAsset {
+			a.Liabilities = a.Liabilities.Add(liab)
+		}
+		if a.AssetDenom == usdc {
+			a.Collateral = a.Collateral.Add(coll)
+		}
+	}
+	env.Perp.SetPool(ctx, pp)
+	vrf.Assume(s.bal[custAsset].GTE(s.long[custAsset].cust.Add(s.short[custAsset].cust).Add(cust)))
+	acc, _ := env.Acc.GetAccountedPool(ctx, 1)
+	for i, d := range []string{atom, usdc} {
+		delta := sdkmath.ZeroInt()
+		if d == liabAsset {
+			delta = delta.Add(liab)
+		}
+		if d == custAsset {
+			delta = delta.Sub(cust)
+		}
+		acc.TotalTokens[i].Amount = acc.TotalTokens[i].Amount.Add(delta)
+		acc.NonAmmPoolTokens[i].Amount = acc.NonAmmPoolTokens[i].Amount.Add(delta)
+	}
+	env.Acc.SetAccountedPool(ctx, acc)
+	env.Perp.SetOpenMTPCount(ctx, s.count+1)
+	// cumulative funding / interest rate blocks at both ends of the interval
+	rate := func(name string) sdkmath.LegacyDec {
+		r := vrf.Dec(name)
+		vrf.Assume(r.GTE(sdkmath.LegacyNewDec(-1)))
+		vrf.Assume(r.LTE(sdkmath.LegacyOneDec()))
+		return r
+	}
+	z := sdkmath.LegacyZeroDec()
+	env.Perp.SetFundingRate(ctx, 90, 1, perptypes.FundingRateBlock{FundingRateLong: rate("fundLong0"), FundingRateShort: rate("fundShort0"), FundingAmountLong: z, FundingAmountShort: z, BlockHeight: 90, BlockTime: now - 60})
+	env.Perp.SetFundingRate(ctx, 100, 1, perptypes.FundingRateBlock{FundingRateLong: rate("fundLong1"), FundingRateShort: rate("fundShort1"), FundingAmountLong: z, FundingAmountShort: z, BlockHeight: 100, BlockTime: now})
+	i0, i1 := rate("interest0"), rate("interest1")
+	vrf.Assume(i1.GTE(i0))
+	env.Perp.SetBorrowRate(ctx, 90, 1, perptypes.InterestBlock{InterestRate: i0, BlockHeight: 90, BlockTime: now - 60})
+	env.Perp.SetBorrowRate(ctx, 100, 1, perptypes.InterestBlock{InterestRate: i1, BlockHeight: 100, BlockTime: now})
+	return s, *m
+}
+
+func settleFunding(pos perptypes.Position) {
+	s, m := setupPos(pos)
+	env, ctx := s.env, s.env.Ctx
+	pp, _ := env.Perp.GetPool(ctx, 1)
+	ammPool, _ := env.Amm.GetPool(ctx, 1)
+	if err := env.Perp.SettleFunding(ctx, &m, &pp, ammPool); err != nil {
+		return // the callers fail the transaction
+	}
+	vrf.Cover("settled")
+	m2, _ := env.Perp.GetMTP(ctx, trader, 1)
+	if !m2.Custody.Equal(m.Custody) {
+		vrf.Cover("fee-taken")
+	}
+	s.noC11 = true // the accounted-pool hook runs at the end of the calling transaction
+	s.check("settle-funding")
+}
+
+// funding settlement of a stored position (the step every close / consolidation / top-up starts with)
+//
+//vrf:cover settled
+//vrf:bound 1 explicit LONG position + symbolic remainder; cumulative funding rates at both ends of a 10-block interval symbolic in [-1, 1]
+func H_SettleFunding_Long() { settleFunding(perptypes.Position_LONG) }
+
+//vrf:cover settled
+//vrf:bound 1 explicit SHORT position + symbolic remainder; as above
+func H_SettleFunding_Short() { settleFunding(perptypes.Position_SHORT) }
+
+func closePos(pos perptypes.Position) {
+	estNoFail = true
+	s, m := setupPos(pos)
+	env, ctx := s.env, s.env.Ctx
+	amt := vrf.Int("closeAmount")
+	vrf.Assume(amt.IsPositive())
+	_, err := env.Perp.Close(ctx, &perptypes.MsgClose{Creator: trader.String(), Id: 1, Amount: amt})
+	if err != nil {
+		return // failed transaction: rolled back by baseapp
+	}
+	vrf.Cover("close-ok")
+	_ = m
+	s.check("close")
+}
+
+// close (partial or full) by the owner: interest settlement, funding settlement, repay, payout
+//
+//vrf:cover close-ok
+//vrf:bound 1 explicit LONG position + symbolic remainder; close amount symbolic; amm estimates havocked
+//vrf:max-paths 6000
+//vrf:tier thorough
+func H_Close_Long() { closePos(perptypes.Position_LONG) }
+
+//vrf:cover close-ok
+//vrf:bound 1 explicit SHORT position + symbolic remainder; close amount symbolic; amm estimates havocked
+//vrf:max-paths 6000
+//vrf:tier thorough
+func H_Close_Short() { closePos(perptypes.Position_SHORT) }
